@@ -8,6 +8,13 @@ pub mod venv {
     // HashMap::new()  (rule T-MAP)
     #[verifier::external_body]
     pub fn new_map() -> (r: HashMap<String, String>) ensures envmap(r) == Map::<Seq<char>, Seq<char>>::empty() { HashMap::new() }
+    // HashMap<String,String>::clone  (rule T-MAP: `M.clone()` on an environment map)
+    #[verifier::external_body]
+    pub fn clone_map(h: &HashMap<String, String>) -> (r: HashMap<String, String>) ensures envmap(r) == envmap(*h) { h.clone() }
+    // A.extend(B.iter().map(|(k, v)| (k.to_owned(), v.to_owned())))  /  A.extend(B.clone()): B's entries override A's
+    #[verifier::external_body]
+    pub fn extend_from(a: &mut HashMap<String, String>, b: &HashMap<String, String>)
+        ensures envmap(*final(a)) == envmap(*old(a)).union_prefer_right(envmap(*b)) { unimplemented!() }
     // documented precedence of one set_env call: the given variables over what is already set over the daemon's environment
     pub open spec fn set_env_spec(old: Map<Seq<char>, Seq<char>>, given: Map<Seq<char>, Seq<char>>) -> Map<Seq<char>, Seq<char>> {
         proc_env().union_prefer_right(old).union_prefer_right(given)
